@@ -651,7 +651,7 @@ batch(uint64_t first, uint64_t count, const char * prefix, int maxreport)
 	struct totals T;
 	struct outcome o;
 	char path[600];
-	FILE * jf, * hf;
+	FILE * jf, * hf, * of;
 	uint64_t s;
 	int reported = 0, i;
 	struct timeval t0, t1;
@@ -667,6 +667,11 @@ batch(uint64_t first, uint64_t count, const char * prefix, int maxreport)
 		perror(path);
 		return (2);
 	}
+	snprintf(path, sizeof(path), "%s.out", prefix);
+	if ((of = fopen(path, "w")) == NULL) {
+		perror(path);
+		return (2);
+	}
 	errfd = memfd_create("verif-err", 0);
 	gettimeofday(&t0, NULL);
 	for (s = first; s < first + count; s++) {
@@ -679,6 +684,9 @@ batch(uint64_t first, uint64_t count, const char * prefix, int maxreport)
 				print_outcome(jf, "v", s, &o);
 			continue;
 		}
+		R->out[sizeof(R->out) - 1] = 0;
+		if (R->out[0] != 0)
+			fprintf(of, "%" PRIu64 "\t%s\n", s, R->out);
 		if (sim_c14 && R->foreign > 0) {
 			/* the history contradicts another property even without a failure: its models are not a reference */
 			T.c14_skipped++;
@@ -723,6 +731,7 @@ batch(uint64_t first, uint64_t count, const char * prefix, int maxreport)
 	fprintf(jf, "}}\n");
 	fclose(jf);
 	fclose(hf);
+	fclose(of);
 	close(errfd);
 	return (0);
 }
